@@ -84,6 +84,9 @@ type plan struct {
 	Handshake bool
 	// ParentCancel: the bootstrap is built WithContext(parent) and a goroutine cancels parent
 	ParentCancel bool
+	// StalledWriter: synchronous-write channels; a user goroutine is blocked inside the transport's Write
+	// (the peer does not read) when Shutdown runs
+	StalledWriter bool
 }
 
 func (p plan) String() string {
@@ -102,6 +105,9 @@ func (p plan) String() string {
 	}
 	if p.ParentCancel {
 		s += " +parent-context-cancelled"
+	}
+	if p.StalledWriter {
+		s += " +sync-channel-with-writer-stuck-in-the-transport"
 	}
 	return s
 }
@@ -124,6 +130,9 @@ func scenario(p plan, bound int) *explore.Scenario {
 				a := &app{o: o, id: ch.ID(), tr: ch.Transport().(*mock.Transport)}
 				o.apps = append(o.apps, a)
 				ch.Pipeline().AddLast(a)
+				if p.StalledWriter {
+					a.tr.Stalled = true
+				}
 				if p.Handshake {
 					g := &greet{tr: a.tr}
 					o.greets = append(o.greets, g)
@@ -131,7 +140,12 @@ func scenario(p plan, bound int) *explore.Scenario {
 				}
 			}
 			parent, cancelParent := vcontext.WithCancel(context.Background())
+			chf := netty.NewAsyncWriteChannel(64, true) // the bootstrap default
+			if p.StalledWriter {
+				chf = netty.NewChannel()
+			}
 			o.bs = netty.NewBootstrap(
+				netty.WithChannel(chf),
 				netty.WithContext(parent),
 				netty.WithTransport(o.f),
 				netty.WithChannelHolder(o.holder),
@@ -165,8 +179,11 @@ func scenario(p plan, bound int) *explore.Scenario {
 			}
 			for k := 0; k < p.Connects; k++ {
 				ths = append(ths, vsched.Go(fmt.Sprintf("client%d", k+1), func() {
-					if _, err := o.bs.Connect("mock://server:9"); err != nil {
+					ch, err := o.bs.Connect("mock://server:9")
+					if err != nil {
 						o.connectErr = append(o.connectErr, err)
+					} else if p.StalledWriter {
+						ch.Write1([]byte("stuck")) // returns only when the transport lets go
 					}
 				}))
 			}
@@ -331,6 +348,7 @@ func build(tier string) []*explore.Scenario {
 		{Connects: 1, Handshake: true},
 		{Listeners: 1, Inbound: 1, ParentCancel: true},
 		{Listeners: 1, Connects: 1, ParentCancel: true},
+		{Connects: 1, StalledWriter: true},
 	}
 	var scs []*explore.Scenario
 	for _, p := range plans {
